@@ -223,14 +223,14 @@ where
             //TODO panic or error
         }
 
-        let hrst_upper = (x / 8) as u8 >> 6;
+        let hrst_upper = (x / 8) as u8 >> 5;
         let hrst_lower = ((x / 8) << 3) as u8;
-        let hred_upper = ((x + width) / 8) as u8 >> 6;
-        let hred_lower = (((x + width) / 8) << 3) as u8 & 0b111;
+        let hred_upper = ((x + width) / 8 - 1) as u8 >> 5;
+        let hred_lower = (((x + width) / 8 - 1) << 3) as u8 | 0b111;
         let vrst_upper = (y >> 8) as u8;
         let vrst_lower = y as u8;
-        let vred_upper = ((y + height) >> 8) as u8;
-        let vred_lower = (y + height) as u8;
+        let vred_upper = ((y + height - 1) >> 8) as u8;
+        let vred_lower = (y + height - 1) as u8;
         let pt_scan = 0x01; // Gates scan both inside and outside of the partial window. (default)
 
         self.command(spi, Command::PartialIn)?;
